@@ -8,7 +8,12 @@ VARIABLE cs
 
 \* code points chosen to hit every class: a " \ / BS LF US DEL e-acute euro U+D7FF U+E000 U+FB33 U+1F600
 Names == {<<>>, <<97>>, <<128512>>, <<64307>>, <<97, 98>>, <<8364>>, <<34>>, <<10>>, <<233, 97>>}
-Strings == {<<>>, <<97>>, <<34, 92, 47>>, <<8, 10, 31>>, <<12, 13, 9>>, <<127, 233>>, <<8364, 55295>>, <<57344, 64307>>, <<128512, 97>>, <<0, 27>>}
+\* further names for the two-member objects: an even supplementary plane (U+20000), U+10FFFF, and names whose
+\* order changes when they are compared in their quoted / escaped form (" and controls against letters,
+\* a name against the same name followed by a space)
+MoreNames == {<<131072>>, <<1114111>>, <<97, 34, 98>>, <<97, 65, 98>>, <<97, 32>>, <<32>>, <<48>>, <<0>>, <<97, 10, 98>>, <<97, 32, 98>>}
+Strings == {<<>>, <<97>>, <<34, 92, 47>>, <<8, 10, 31>>, <<12, 13, 9>>, <<127, 233>>, <<8364, 55295>>, <<57344, 64307>>, <<128512, 97>>, <<0, 27>>,
+            <<131072, 1114111>>, <<128, 159, 255>>}
 Numbers == {Num(<<0>>, 1, FALSE), Num(<<0>>, 1, TRUE), Num(<<1>>, 1, FALSE), Num(<<1>>, 22, FALSE), Num(<<1>>, 21, FALSE),
             Num(<<1>>, -5, FALSE), Num(<<1>>, -6, FALSE), Num(<<1, 5>>, -6, TRUE), Num(<<1, 2, 3>>, 2, FALSE),
             Num(<<1, 2, 3>>, 3, FALSE), Num(<<1, 2, 3>>, 5, TRUE), Num(<<5>>, -323, FALSE),
@@ -31,7 +36,8 @@ Objects(vals, names, maxLen) ==
 
 Arrays(vals) == {Arr(<<>>)} \cup {Arr(<<v>>) : v \in vals} \cup {Arr(<<v1, v2>>) : v1 \in vals, v2 \in vals}
 
-Level1 == Objects(Leaves, Names, 1) \cup Objects(SmallLeaves, Names, 2) \cup Arrays(Leaves)
+Level1 == Objects(Leaves, Names \cup MoreNames, 1) \cup Objects(SmallLeaves, Names, 2) \cup Arrays(Leaves)
+            \cup Objects({Lit("null")}, Names \cup MoreNames, 2)
 \* three-member objects: every order of three names whose UTF-16 order differs from code-point order
 Triples == {Obj(<<Member(p[1], Lit("null")), Member(p[2], Lit("true")), Member(p[3], Num(<<1>>, 1, FALSE))>>) :
               p \in {q \in Names \X Names \X Names : q[1] # q[2] /\ q[1] # q[3] /\ q[2] # q[3]}}
